@@ -42,6 +42,12 @@ type Item struct {
 	Extra     map[string]any    `json:"extra,omitempty"`
 }
 
+// NewTextItem is an item given as raw grammar text (hostile spellings); reference models that need the AST do not apply.
+func NewTextItem(fam, text string, flags ...string) *Item {
+	h := sha256.Sum256([]byte(text + "\x00" + strings.Join(flags, " ")))
+	return &Item{ID: "g" + hex.EncodeToString(h[:7]), Fam: fam, Text: text, Flags: flags}
+}
+
 // NewItem derives a stable id from the grammar (without header) and flags.
 func NewItem(fam string, g *gram.Grammar, flags ...string) *Item {
 	h := sha256.Sum256([]byte(g.Text() + "\x00" + strings.Join(flags, " ")))
@@ -91,15 +97,17 @@ func BuildOpt(t *gen.Tools, pool *gen.Pool, tag string, items []*Item, race bool
 		it := c.Items[i]
 		dir := filepath.Join(root, "g", it.ID)
 		os.MkdirAll(dir, 0o777)
-		g := *it.G
-		if it.RtImp || it.TokImp {
-			imp := "import (\n\t\"verif/rt\"\n"
-			if it.TokImp {
-				imp += "\t\"" + pkgPath(it.ID) + "/token\"\n"
+		if it.G != nil {
+			g := *it.G
+			if it.RtImp || it.TokImp {
+				imp := "import (\n\t\"verif/rt\"\n"
+				if it.TokImp {
+					imp += "\t\"" + pkgPath(it.ID) + "/token\"\n"
+				}
+				g.Header = imp + ")"
 			}
-			g.Header = imp + ")"
+			it.Text = g.Text()
 		}
-		it.Text = g.Text()
 		os.WriteFile(filepath.Join(dir, "g.bnf"), []byte(it.Text), 0o666)
 		args := append(append([]string{}, it.Flags...), "-o", "o", "g.bnf")
 		res := pool.Run(gen.Job{Dir: dir, Args: args})
